@@ -110,3 +110,7 @@ pub enum InformationContentKind {
     /// Information content related to the associated ORPHA-diseases
     Orpha,
 }
+
+#[cfg(kani)]
+#[path = "/verif/kani/information_content.rs"]
+mod verif_kani;
